@@ -8,11 +8,19 @@ inductive Verdict where
   | agree                                   -- model output = implementation output
   | disagree (specOk : Bool) (model : String) -- they differ; `specOk` = the property predicate of S holds on the implementation's output
   | bad (msg : String)                      -- the line could not be parsed (harness/driver bug)
+  | unmodelled                              -- outside the class a partial library model covers: not compared
   deriving Repr
 
 /-- compare a model output with the implementation output; `spec` is only evaluated on a disagreement -/
 def compare (model impl : String) (spec : Unit → Bool) : Verdict :=
   if model = impl then .agree else .disagree (spec ()) model
+
+/-- like `compare`, but the property predicate is evaluated on *every* case: agreement of model and
+    implementation on an answer that violates the specification is a violation too -/
+def compareS (model impl : String) (spec : Unit → Bool) : Verdict :=
+  let ok := spec ()
+  if model = impl then (if ok then .agree else .disagree false (model ++ " [model and implementation agree; the specification predicate fails]"))
+  else .disagree ok model
 
 end Driver
 end Astisub
